@@ -97,7 +97,8 @@ type Datagram struct {
 	Kind       int
 	AvailAt    int64 // virtual ns: not receivable before
 	Consumed   bool
-	ConsumedBy int // receive ordinal
+	ConsumedBy int  // receive ordinal
+	Unexcused  bool // left unread by a call that had no reason to leave it (harness bookkeeping)
 }
 
 // Request is one ledger entry: everything the kernel saw and answered.
@@ -109,6 +110,7 @@ type Request struct {
 	Seq, Pid    uint32
 	Payload     []byte
 	Verdict     int // errno in the ACK (0 = success)
+	DataFirst   bool // the reply was queued ahead of the ACK
 	Injected    bool
 	Applied     bool
 	Replies     []*Datagram
@@ -131,6 +133,7 @@ type ReqFault struct {
 	DataPad     int   `json:"data_pad,omitempty"`     // GET reply payload extended by this many trailing bytes
 	AckShort    int   `json:"ack_short,omitempty"`    // ACK datagram cut to this many bytes (+1, 0 = none)
 	Spoof       int   `json:"spoof,omitempty"`        // 1: a datagram from a non-kernel port id ahead; 2: non-netlink sockaddr ahead
+	DataFirst   bool  `json:"data_first,omitempty"`   // GET: the reply (queued by a kernel thread) overtakes the ACK; UnsolMid records sit between the two
 }
 
 // Kernel is the simulated audit subsystem with one client socket.
@@ -149,7 +152,7 @@ type Kernel struct {
 	recvOrd    int
 	unsolSeq   int
 	// statistics (faults fired)
-	FiredErrno, FiredUnsol, FiredStale, FiredDelay, FiredTrunc, FiredSpoof int
+	FiredErrno, FiredUnsol, FiredStale, FiredDelay, FiredTrunc, FiredSpoof, FiredReorder int
 }
 
 func New(replySize int, now func() int64) *Kernel {
@@ -196,7 +199,7 @@ func (k *Kernel) data(r *Request, typ uint16, flags uint16, payload []byte, kind
 	return k.enqueue(d)
 }
 
-// Unsolicited enqueues n audit records (sequence 0, types 1100..1399), as the
+// Unsolicited enqueues n audit records (sequence 0, mostly types 1100..1399), as the
 // kernel does for the registered audit daemon at any moment.
 func (k *Kernel) Unsolicited(n int, avail int64) {
 	for i := 0; i < n; i++ {
@@ -204,6 +207,11 @@ func (k *Kernel) Unsolicited(n int, avail int64) {
 		body := []byte("audit(1500000000.000:" + itoa(k.unsolSeq) + "): unsolicited=" + itoa(k.unsolSeq))
 		b := make([]byte, NlmsgHdrLen+len(body))
 		typ := uint16(1100 + (k.unsolSeq*37)%300)
+		if k.unsolSeq%4 == 3 {
+			// records outside the 1100..1399 block: AUDIT_USER / AUDIT_LOGIN sit in the
+			// 1000..1099 range next to the commands, LSM / anomaly / integrity / crypto records above
+			typ = []uint16{1006, 1005, 1400, 1700, 1800, 2100, 2404, 2999}[(k.unsolSeq/4)%8]
+		}
 		hdr(b, uint32(len(b)), typ, 0, 0, 0)
 		copy(b[NlmsgHdrLen:], body)
 		k.enqueue(&Datagram{Bytes: b, Req: -1, Kind: DUnsolicited, AvailAt: avail})
@@ -359,6 +367,19 @@ func (k *Kernel) Sendto(wire []byte, dstPid uint32) int {
 		}
 		r.StatusSent = append([]byte(nil), payload...)
 		k.data(r, AuditGet, 0, payload, DData, avail)
+		if f.DataFirst && ackD != nil {
+			// the reply is sent by a kernel thread of its own and may reach the
+			// socket before the ACK of the request context
+			k.Unsolicited(f.UnsolMid, avail)
+			for i, d := range k.Queue {
+				if d == ackD {
+					k.Queue = append(append(k.Queue[:i:i], k.Queue[i+1:]...), ackD)
+					break
+				}
+			}
+			r.DataFirst = true
+			k.FiredReorder++
+		}
 	case AuditListRules:
 		for _, rule := range k.Rules {
 			r.RulesSent = append(r.RulesSent, append([]byte(nil), rule...))
